@@ -84,12 +84,17 @@ pub struct T22 {
     seen: u64,
 }
 impl T22 {
-    fn process_sync_tags<'a>(&mut self, a: u32, at: &'a [Tag], b: u32, _bt: &'a [Tag]) -> (u32, u8, Cow<'a, [Tag]>) {
+    fn process_sync_tags<'a>(&mut self, a: u32, at: &'a [Tag], b: u32, bt: &'a [Tag]) -> (u32, u8, Cow<'a, [Tag]>) {
         self.seen += 1;
         step();
-        let tags = if a % 97 == 0 {
+        // Forwards the tags of *both* inputs (each input's tag slice must reach
+        // the per-sample function whatever the other inputs carry).
+        let tags = if a % 97 == 0 || !bt.is_empty() {
             let mut t = at.to_vec();
-            t.push(Tag::new(0, "mark", TagValue::U64(a as u64)));
+            t.extend_from_slice(bt);
+            if a % 97 == 0 {
+                t.push(Tag::new(0, "mark", TagValue::U64(a as u64)));
+            }
             Cow::Owned(t)
         } else {
             Cow::Borrowed(at)
@@ -312,6 +317,7 @@ fn run_arity(a: &Arity, seed: u64, rep: &mut Report) -> Vec<(String, String)> {
     let n = datas.iter().map(|v| v.len()).min().unwrap();
     let mut exp: Vec<OutTag> = in_tags[0].iter().filter(|t| t.pos < n).map(|t| OutTag { pos: t.pos as u64, key: t.key.clone(), val: tv_repr(&t.val) }).collect();
     if a.tag_mode && a.nin == 2 {
+        exp.extend(in_tags[1].iter().filter(|t| t.pos < n).map(|t| OutTag { pos: t.pos as u64, key: t.key.clone(), val: tv_repr(&t.val) }));
         for i in 0..n {
             if datas[0][i] % 97 == 0 {
                 exp.push(OutTag { pos: i as u64, key: "mark".into(), val: tv_repr(&TagValue::U64(datas[0][i] as u64)) });
@@ -325,7 +331,7 @@ fn run_arity(a: &Arity, seed: u64, rep: &mut Report) -> Vec<(String, String)> {
         g.sort();
         rep.count("tags_checked", g.len() as u64);
         if g != exp {
-            out.push(("tags".into(), format!("output {o}: {} tags, expected {} (first input's tags{})", g.len(), exp.len(), if a.tag_mode { " plus added marks" } else { "" })));
+            out.push(("tags".into(), format!("output {o}: {} tags, expected {} ({})", g.len(), exp.len(), if a.tag_mode && a.nin == 2 { "both inputs' tags plus added marks" } else { "first input's tags" })));
             break;
         }
     }
